@@ -91,7 +91,14 @@ def build(C, opt):
     nobs, bo = (opt.get("nobs", 4), b) if lkind != "nonstatio" else (npts * ntp, B)
     key = jax.random.PRNGKey(opt["seed"])
     if lkind == "ode":
-        data = jinns.data.DataGeneratorODE(key, npts, 0.0, 1.0, b, method="grid")
+        if opt.get("rar"):
+            # the refinement option is switched on with a store that is already full (nt_start = nt): no point is ever added, but every
+            # iteration goes through solve's refinement trigger (both branches traced, the "no step" branch taken)
+            data = jinns.data.DataGeneratorODE(key, npts, 0.0, 1.0, b, method="grid", nt_start=npts,
+                                               rar_parameters={"start_iter": 1, "update_every": 2, "sample_size_times": 2,
+                                                               "selected_sample_size_times": 1})
+        else:
+            data = jinns.data.DataGeneratorODE(key, npts, 0.0, 1.0, b, method="grid")
         GT, GX = jnp.sort(data.times), None
     elif lkind == "statio":
         data = jinns.data.CubicMeshPDEStatio(key=key, n=npts, nb=4 * b, omega_batch_size=b, omega_border_batch_size=b, dim=2,
